@@ -27,7 +27,7 @@ ASSUMPTIONS = [
 ]
 
 FAULTS = [None, None, None, "refuse", "garbage-hello", "close-before-header", "close-mid-header", "garbage-header", "garbage-header-long",
-          "reset-mid-body", "fin-mid-body", "stall-before-header", "stall-mid-header", "stall-mid-body", "stall-no-accept"]
+          "reset-mid-body", "fin-mid-body", "stall-before-header", "stall-mid-header", "stall-mid-body", "stall-no-accept", "trickle-mid-body"]
 TIMEOUT = 5.0
 
 
@@ -180,6 +180,13 @@ def run_case(case: dict):
             script += [("send", data[: max(1, hdr_end // 2)].replace(b"\r\n", b"")), ("mark",), ("stall",)]
         elif fault == "stall-mid-body":
             script += [("send", data[:hdr_end] + data[hdr_end: hdr_end + 3]), ("mark",), ("stall",)]
+        elif fault == "trickle-mid-body":
+            # never finishes, but never goes quiet for as long as the location's timeout either: one more byte every quarter
+            # of the timeout, for twelve timeouts
+            script += [("send", data[:hdr_end] + data[hdr_end: hdr_end + 3]), ("mark",)]
+            for _ in range(48):
+                script += [("sleep", TIMEOUT / 4.0), ("send", b".")]
+            script += [("stall",)]
         elif fault == "stall-no-accept":
             script = [("stall",)]
         up = memnet.ScriptedPeer(certs.get("ec-a"), script, garbage_hello=(fault == "garbage-hello"),
@@ -249,7 +256,7 @@ def run_case(case: dict):
             ref = ("grey-or", ref)  # complete non-2x header, then the upstream reset/cut the connection: 43 or relay
         elif fault == "reset-mid-body" and ref[0] == "grey-or" and ref[1][0] == "resp":
             ref = ("exc",)  # the upstream reset the connection after a 2x header: never a 'complete' relay
-    elif fault == "stall-mid-body":
+    elif fault in ("stall-mid-body", "trickle-mid-body"):
         ref = c13.reference(data[:hdr_end] + data[hdr_end: hdr_end + 3], "stall")
     else:
         ref = ("exc",)
